@@ -13,10 +13,10 @@ CONSTANTS MaxHist, NConc, What     \* What = "history" | "conc"
 VARIABLES hist, pr, hph
 hvars == <<hist, pr, hph>>
 
-K == [DefaultCfg EXCEPT !.protos = <<"connect">>, !.codecs = <<"proto">>, !.comps = <<"gzip">>, !.L = 2048]
+K == [DefaultCfg EXCEPT !.protos = <<"grpc">>, !.codecs = <<"proto">>, !.comps = <<"gzip">>, !.L = 2048]
 Base == [cfg |-> K, cl |-> DefaultCl, hd |-> [DefaultHd EXCEPT !.frames = <<Frame(9, FALSE)>>, !.errat = 1]]
 
-OkUnary == [Base EXCEPT !.cl.form = "grpc", !.cl.major = 2, !.cl.codec = "json", !.cl.method = "Post", !.cl.frames = <<Frame(1, FALSE)>>]
+OkUnary == [Base EXCEPT !.cl.form = "connect_post", !.cl.major = 1, !.cl.codec = "json", !.cl.method = "Post", !.cl.frames = <<Frame(1, FALSE)>>]
 OkStreamGzip == [Base EXCEPT !.cl.form = "grpcweb", !.cl.major = 1, !.cl.codec = "json", !.cl.comp = "gzip", !.cl.accept = <<"gzip">>,
                              !.cl.method = "CStream", !.cl.frames = <<Frame(1, TRUE), Frame(2, FALSE)>>, !.hd.comp = "gzip",
                              !.hd.frames = <<Frame(9, TRUE)>>]
@@ -27,18 +27,25 @@ OkServerStream == [Base EXCEPT !.cl.form = "grpc", !.cl.major = 2, !.cl.codec = 
 RejectCodec == [OkUnary EXCEPT !.cl.rej = "unknowncodec"]
 CutMid == [OkStreamGzip EXCEPT !.cl.cut = "pay:1"]
 Oversize == [msgs |-> [x \in {"1"} |-> "size:5000"]] @@ OkUnary
+\* over the limit on the path that buffers an un-enveloped body of undeclared length to measure it
+OversizeMeasure == [msgs |-> [x \in {"1"} |-> "size:5000"]] @@
+                   [Base EXCEPT !.cl.form = "connect_post", !.cl.major = 1, !.cl.codec = "proto", !.cl.method = "Post",
+                                !.cl.frames = <<Frame(1, FALSE)>>]
+\* a body of undeclared length that breaks off while it is being buffered
+CutMeasure == [OversizeMeasure EXCEPT !.cl.cut = "at:7"] 
 GzCorrupt == [OkStreamGzip EXCEPT !.cl.frames = <<[Frame(1, TRUE) EXCEPT !.fault = "gzcorrupt"]>>]
 Undecodable == [OkUnary EXCEPT !.cl.frames = <<[Frame(1, FALSE) EXCEPT !.fault = "undecodable"]>>]
 BackendPanic == [OkUnary EXCEPT !.hd.exit = "panic"]
 BackendError == [OkStreamGzip EXCEPT !.hd.end.code = 8, !.hd.errat = 0]
 BigResponse == [msgs |-> [x \in {"9"} |-> "size:5000"]] @@ OkUnary
 
-Kinds == {OkUnary, OkStreamGzip, RejectCodec, CutMid, Oversize, GzCorrupt, Undecodable, BackendPanic, BackendError, BigResponse}
+Kinds == {OkUnary, OkStreamGzip, RejectCodec, CutMid, Oversize, OversizeMeasure, CutMeasure, GzCorrupt, Undecodable,
+          BackendPanic, BackendError, BigResponse}
 Probes == {OkUnary, OkStreamGzip, OkRest, OkServerStream}
 
 HInit == hist = <<>> /\ pr = OkUnary /\ hph = "grow" /\ Init
 Grow == /\ hph = "grow" /\ Len(hist) < (IF What = "history" THEN MaxHist ELSE NConc)
-        /\ \E k \in (IF What = "history" THEN Kinds ELSE Probes \cup {CutMid, Oversize, GzCorrupt, BackendError}) : hist' = Append(hist, k)
+        /\ \E k \in (IF What = "history" THEN Kinds ELSE Probes \cup {CutMid, Oversize, OversizeMeasure, GzCorrupt, BackendError}) : hist' = Append(hist, k)
         /\ UNCHANGED <<pr, hph>>
 Pick == /\ hph = "grow"
         /\ (What = "conc" => Len(hist) >= 2)
